@@ -273,16 +273,43 @@ class CallGraph:
         """[(field qual, base repr, node, bid, idx)] written directly in f (ctor inits included)"""
         out = []
         # reference locals bound to a data member are names of that member: `auto& left = limit_; left--;` writes limit_
+        # ... and so is a reference bound to such a name, to an element reached through an iterator into the member (`for (auto& el : member)`,
+        # `auto& el = *it` with `it = member.begin()`), or to what an owning pointer member points to (`auto& v = *ptr_member_`)
         alias = {}
-        for bid, i, e in f.all_elems():
-            x = e.get("expr")
-            if isinstance(x, dict) and x.get("k") == "decl":
-                for v in x.get("vars", []):
-                    t = (v.get("type") or "").rstrip()
-                    if (v.get("ref") or t.endswith("&")) and not t.startswith("const ") and v.get("init") is not None:
-                        kind0, key0, _ = lvalue_root(v["init"])
-                        if kind0.split(":")[-1] == "field":
-                            alias[v["name"]] = key0
+        iters = {}
+        decls = [v for bid, i, e in f.all_elems() if isinstance(e.get("expr"), dict) and e["expr"].get("k") == "decl" for v in e["expr"].get("vars", [])]
+        for _ in range(4):
+            changed = False
+            for v in decls:
+                if v.get("init") is None or v["name"] in alias or v["name"] in iters:
+                    continue
+                t = (v.get("type") or "").rstrip()
+                init = ir.unwrap(v["init"])
+                kind0, key0, _ = lvalue_root(init)
+                base_kind = kind0.split(":")[-1]
+                is_ref = (v.get("ref") or t.endswith("&")) and not t.startswith("const ")
+                if is_ref:
+                    if base_kind == "field":
+                        alias[v["name"]] = key0
+                        changed = True
+                    elif base_kind == "local" and kind0.startswith("deref") and key0 in iters:
+                        alias[v["name"]] = iters[key0]
+                        changed = True
+                    elif base_kind == "local" and key0 in alias:
+                        alias[v["name"]] = alias[key0]
+                        changed = True
+                elif "iterator" in t and "const_iterator" not in t and isinstance(init, dict) and init.get("k") == "call" and init.get("this") is not None \
+                        and short(init.get("name") or "") in ("begin", "end", "rbegin", "rend", "find", "lower_bound", "upper_bound"):
+                    k1, key1, _ = lvalue_root(init["this"])
+                    b1 = k1.split(":")[-1]
+                    if b1 == "field":
+                        iters[v["name"]] = key1
+                        changed = True
+                    elif b1 == "local" and key1 in alias:
+                        iters[v["name"]] = alias[key1]
+                        changed = True
+            if not changed:
+                break
         for bid, i, e in f.all_elems():
             if e["kind"] == "init" and e.get("field"):
                 out.append((e["field"], "this", e, bid, i, "init"))
@@ -296,6 +323,8 @@ class CallGraph:
                         out.append((key[0], key[1], n, bid, i, eff))
                     elif base_kind == "local" and key in alias and eff == "write" and not key.startswith("__") and not (isinstance(n, dict) and n.get("k") == "decl"):
                         out.append((alias[key][0], alias[key][1], n, bid, i, eff))
+                    elif base_kind == "local" and kind.startswith("deref") and key in iters and eff == "write" and not (isinstance(n, dict) and n.get("k") == "call" and n.get("op") in ("++", "--")):
+                        out.append((iters[key][0], iters[key][1], n, bid, i, eff))
         return out
 
     def static_writes(self, f):
